@@ -1,6 +1,7 @@
 (* C09 -- k-opt (k_max in {3,4}): exhaustive finite validity of the sequential move builder + relinking
    operator, lifted from vm_compute.  This is a BOUNDED statement (bounds explicit in the theorem);
-   the unbounded statement is [ImproveKopt.k_opt_valid_statement] and is not proved. *)
+   the unbounded statement [ImproveKopt.k_opt_valid_statement] is proved in ImproveKoptBuilder.v
+   ([k_opt_valid], every k and every n >= 3); this file remains as an independent exhaustive evaluation. *)
 From Coq Require Import ZArith List Bool Lia ZifyBool Arith.
 From RL4CO Require Import Env.Improve Env.ImproveKopt.
 Import ListNotations.
